@@ -126,6 +126,36 @@ func (x *Exec) native(st *State, fr *Frame, callee *ssa.Function, key string, ar
 				return true
 			}
 		}
+		// fmt.Sprintf("%v", x) for one boolean / string / integer operand: its standard rendering
+		if key == "fmt.Sprintf" && (argv[0].S == sStr("%v") || argv[0].S == sStr("%t") || argv[0].S == sStr("%s") || argv[0].S == sStr("%d")) && len(argv) == 2 && argv[1].Sort == "Slice" {
+			var et types.Type = types.NewInterfaceType(nil, nil)
+			if sl, ok := argv[1].T.Underlying().(*types.Slice); ok {
+				et = sl.Elem()
+			}
+			arr, idx := "(sarr "+argv[1].S+")", "(+ (soff "+argv[1].S+") 0)"
+			if sd, ok := st.last["slice@"+argv[1].S]; ok && sd.Sort == "0" {
+				arr, idx = sd.S, "0"
+			}
+			el := st.load(st.elemAddrOf(arr, idx, et), et)
+			if c, ok := st.conc[el.S]; ok {
+				f := argv[0].S
+				switch {
+				case c.Sort == "Bool" && (f == sStr("%v") || f == sStr("%t")):
+					k(st, Val{T: rt, S: sIte(c.S, sStr("true"), sStr("false")), Sort: "String"})
+					return true
+				case c.Sort == "String" && (f == sStr("%v") || f == sStr("%s")):
+					if b, ok := c.T.Underlying().(*types.Basic); ok && b.Kind() == types.String {
+						k(st, Val{T: rt, S: c.S, Sort: "String"})
+						return true
+					}
+				case c.Sort == "Int" && (f == sStr("%v") || f == sStr("%d")):
+					if b, ok := c.T.(*types.Basic); ok && b.Info()&types.IsInteger != 0 {
+						k(st, strUF("Itoa", c))
+						return true
+					}
+				}
+			}
+		}
 		k(st, freshRet("str"))
 		return true
 	case "strings.Contains":
